@@ -20,7 +20,6 @@ use libtw2_net::Timestamp;
 use serde_json::json;
 use serde_json::Value;
 use std::collections::HashSet;
-use std::convert::Infallible;
 
 pub const BUDGET_PANIC: &str = "VERIF callback budget exceeded";
 pub const START_US: u64 = 1_000_000_000;
@@ -50,8 +49,15 @@ impl Variant {
 /// The harness side of `Callback`: virtual clock, outbox, scripted randomness
 /// and a call counter that turns an unbounded loop inside one API call into a
 /// deterministic panic (see DESIGN.md C02).
+/// Injected send failure: the socket refused the datagram.
+#[derive(Clone, Copy, Debug)]
+pub struct SendFail;
+
 #[derive(Clone, Debug)]
 pub struct Cb {
+    /// fault injection: this many upcoming `send` calls fail
+    pub fail_sends: u32,
+    pub send_failures: u64,
     pub now_us: u64,
     pub sent: Vec<Vec<u8>>,
     pub rng: Rng,
@@ -65,6 +71,8 @@ pub struct Cb {
 impl Cb {
     pub fn new(seed: u64) -> Cb {
         Cb {
+            fail_sends: 0,
+            send_failures: 0,
             now_us: START_US,
             sent: Vec::new(),
             rng: Rng::new(seed),
@@ -89,9 +97,15 @@ impl Cb {
         }
         self.randoms.push(buffer.to_vec());
     }
-    fn push(&mut self, data: &[u8]) {
+    fn push(&mut self, data: &[u8]) -> Result<(), SendFail> {
         self.bump();
+        if self.fail_sends > 0 {
+            self.fail_sends -= 1;
+            self.send_failures += 1;
+            return Err(SendFail);
+        }
         self.sent.push(data.to_vec());
+        Ok(())
     }
     fn time(&mut self) -> Timestamp {
         self.bump();
@@ -100,13 +114,12 @@ impl Cb {
 }
 
 impl c6::Callback for Cb {
-    type Error = Infallible;
+    type Error = SendFail;
     fn secure_random(&mut self, buffer: &mut [u8]) {
         self.random(buffer)
     }
-    fn send(&mut self, buffer: &[u8]) -> Result<(), Infallible> {
-        self.push(buffer);
-        Ok(())
+    fn send(&mut self, buffer: &[u8]) -> Result<(), SendFail> {
+        self.push(buffer)
     }
     fn time(&mut self) -> Timestamp {
         Cb::time(self)
@@ -114,13 +127,12 @@ impl c6::Callback for Cb {
 }
 
 impl c7::Callback for Cb {
-    type Error = Infallible;
+    type Error = SendFail;
     fn secure_random(&mut self, buffer: &mut [u8]) {
         self.random(buffer)
     }
-    fn send(&mut self, buffer: &[u8]) -> Result<(), Infallible> {
-        self.push(buffer);
-        Ok(())
+    fn send(&mut self, buffer: &[u8]) -> Result<(), SendFail> {
+        self.push(buffer)
     }
     fn time(&mut self) -> Timestamp {
         Cb::time(self)
@@ -227,11 +239,9 @@ fn drain7(it: c7::ReceivePacket) -> Vec<Event> {
     .collect()
 }
 
-fn unwrap_inf<T>(r: Result<T, Infallible>) -> T {
-    match r {
-        Ok(v) => v,
-        Err(e) => match e {},
-    }
+/// A refused datagram is simply lost; the call itself went through.
+fn unwrap_inf(r: Result<(), SendFail>) {
+    let _ = r;
 }
 
 impl Conn for c6::Connection {
@@ -249,14 +259,14 @@ impl Conn for c6::Connection {
         match c6::Connection::send(self, cb, data, vital) {
             Ok(()) => Ok(()),
             Err(c6::Error::TooLongData) => Err(()),
-            Err(c6::Error::Callback(e)) => match e {},
+            Err(c6::Error::Callback(SendFail)) => Ok(()), // the chunk is queued, only the implicit flush failed
         }
     }
     fn send_connless(&mut self, cb: &mut Cb, data: &[u8]) -> Result<(), ()> {
         match c6::Connection::send_connless(self, cb, data) {
             Ok(()) => Ok(()),
             Err(c6::Error::TooLongData) => Err(()),
-            Err(c6::Error::Callback(e)) => match e {},
+            Err(c6::Error::Callback(SendFail)) => Ok(()), // the chunk is queued, only the implicit flush failed
         }
     }
     fn flush(&mut self, cb: &mut Cb) {
@@ -359,14 +369,14 @@ impl Conn for c7::Connection {
         match c7::Connection::send(self, cb, data, vital) {
             Ok(()) => Ok(()),
             Err(c7::Error::TooLongData) => Err(()),
-            Err(c7::Error::Callback(e)) => match e {},
+            Err(c7::Error::Callback(SendFail)) => Ok(()), // the chunk is queued, only the implicit flush failed
         }
     }
     fn send_connless(&mut self, cb: &mut Cb, data: &[u8]) -> Result<(), ()> {
         match c7::Connection::send_connless(self, cb, data) {
             Ok(()) => Ok(()),
             Err(c7::Error::TooLongData) => Err(()),
-            Err(c7::Error::Callback(e)) => match e {},
+            Err(c7::Error::Callback(SendFail)) => Ok(()), // the chunk is queued, only the implicit flush failed
         }
     }
     fn flush(&mut self, cb: &mut Cb) {
@@ -531,6 +541,8 @@ pub enum Move {
     Drop { to: usize, idx: usize },
     Dup { to: usize, idx: usize },
     Disconnect { side: usize, reason_len: usize },
+    /// fault injection: the next `n` datagrams this side hands to its socket are refused
+    FailSends { side: usize, n: u32 },
 }
 
 impl Move {
@@ -547,6 +559,7 @@ impl Move {
             Move::Drop { to, idx } => json!({"drop_to": to, "idx": idx}),
             Move::Dup { to, idx } => json!({"dup_to": to, "idx": idx}),
             Move::Disconnect { side, reason_len } => json!({"disconnect": side, "reason_len": reason_len}),
+            Move::FailSends { side, n } => json!({"fail_sends": side, "n": n}),
         }
     }
     pub fn from_json(v: &Value) -> Move {
@@ -580,6 +593,9 @@ impl Move {
         }
         if !v["dup_to"].is_null() {
             return Move::Dup { to: u("dup_to"), idx: u("idx") };
+        }
+        if !v["fail_sends"].is_null() {
+            return Move::FailSends { side: u("fail_sends"), n: u("n") as u32 };
         }
         if !v["disconnect"].is_null() {
             return Move::Disconnect { side: u("disconnect"), reason_len: u("reason_len") };
@@ -625,6 +641,7 @@ pub struct Stats {
     pub ready: u64,
     pub warnings_on_feed: u64,
     pub token_mismatch: u64,
+    pub send_failures_armed: u64,
 }
 
 pub struct Side<C: Conn> {
@@ -774,7 +791,7 @@ impl<C: Conn> Sim<C> {
             }
             Move::Connless { side, .. } => self.online(side),
             Move::Flush(side) => self.online(side),
-            Move::Tick(_) | Move::Advance(_) | Move::AdvanceToDeadline => true,
+            Move::Tick(_) | Move::Advance(_) | Move::AdvanceToDeadline | Move::FailSends { .. } => true,
             Move::Deliver { to, idx } | Move::Drop { to, idx } | Move::Dup { to, idx } => idx < self.wire[to].len(),
             Move::Disconnect { side, .. } => st(side) != "Disconnected" && (self.allow_disconnect_unconnected || st(side) != "Unconnected"),
         }
@@ -1102,6 +1119,10 @@ impl<C: Conn> Sim<C> {
                 let st = self.sides[side].conn.state_name();
                 self.call(side, "Connection::tick", st, |c, cb| c.tick(cb));
             }
+            Move::FailSends { side, n } => {
+                self.sides[side].cb.fail_sends = n;
+                self.stats.send_failures_armed += n as u64;
+            }
             Move::Advance(us) => {
                 let t = self.now() + us;
                 self.set_now(t);
@@ -1221,6 +1242,8 @@ pub struct Personality {
     pub big_pct: u32,
     pub both_send: bool,
     pub burst: usize,
+    /// weight of injected send failures (0 = none)
+    pub w_fail: u32,
 }
 
 impl Personality {
@@ -1249,6 +1272,7 @@ impl Personality {
             big_pct: *rng.pick(&[0, 5, 20, 60]),
             both_send: rng.chance(3, 4),
             burst: *rng.pick(&[1, 1, 1, 3, 10, 40]),
+            w_fail: *rng.pick(&[0, 0, 0, 1, 3]),
         }
     }
     pub fn to_json(&self) -> Value {
@@ -1282,6 +1306,7 @@ pub fn chaos_move<C: Conn>(sim: &Sim<C>, rng: &mut Rng, p: &Personality, max_len
         p.w_advance,
         if total_wire > 0 { p.w_deliver + (total_wire as u32).min(40) } else { 0 },
         p.w_connless,
+        p.w_fail,
     ];
     match rng.weighted(&weights) {
         0 => {
@@ -1323,10 +1348,11 @@ pub fn chaos_move<C: Conn>(sim: &Sim<C>, rng: &mut Rng, p: &Personality, max_len
                 Move::Deliver { to, idx }
             }
         }
-        _ => Move::Connless {
+        5 => Move::Connless {
             side: rng.usize_below(2),
             len: pick_len(rng, p.big_pct, max_len),
         },
+        _ => Move::FailSends { side: rng.usize_below(2), n: rng.range(1, 3) as u32 },
     }
 }
 
@@ -1447,6 +1473,7 @@ pub fn fold_stats<C: Conn>(ctx: &mut crate::Ctx, sim: &Sim<C>) {
     ctx.count("seq_wraps", s.seq_wraps);
     ctx.count("ready_events", s.ready);
     ctx.count("token_mismatch_warnings", s.token_mismatch);
+    ctx.count("send_failures_injected", sim.sides[0].cb.send_failures + sim.sides[1].cb.send_failures);
     ctx.max("max_unacked", s.max_unacked);
     ctx.max("max_queued_chunks", s.max_queued_chunks);
     ctx.max("max_datagrams_per_call", s.max_datagrams_per_call);
@@ -1520,8 +1547,8 @@ pub fn forward_findings<C: Conn>(ctx: &mut crate::Ctx, sim: &Sim<C>, own: &[&str
         if own.contains(&f.clause) {
             let mut data = case_data.clone();
             let signature = format!("{}|{}|{}|{}", ctx.property, f.clause, f.site, f.class);
-            if !ctx.violations.contains_key(&signature) && BUILTIN_CLAUSES.contains(&f.clause) && sim.log.len() <= 20_000 {
-                let small = minimise(sim, f, 300);
+            if !ctx.violations.contains_key(&signature) && BUILTIN_CLAUSES.contains(&f.clause) && sim.log.len() <= 6_000 {
+                let small = minimise(sim, f, 120);
                 data["minimised_moves"] = json!(small.iter().map(|m| m.to_json()).collect::<Vec<_>>());
                 data["minimised_from"] = json!(sim.log.len());
                 data["seed"] = json!(sim.seed);
